@@ -24,9 +24,15 @@ A1_WITH = ('C01', 'C06')
 A1_THOROUGH = ('C02', 'C03', 'C05', 'C07', 'C08', 'C09', 'C10', 'C11', 'C13', 'C15', 'C16', 'C17', 'C18', 'C19', 'C20', 'C04')
 
 
+def _cost(h):
+    # CPU seconds of one harness in the quick tier: measured cbmc time plus ~0.5 s of per-harness overhead (goto linking,
+    # process start), once per build mode it runs in
+    return (max(h.get("est_s") or 5, 0.2) + 0.5) * (2 if h.get('mode') == 'both' else 1)
+
+
 def select(pid=None, tier='quick', fn_key=None, seed=0):
     out = _select_all(pid, tier, fn_key)
-    if tier == 'quick' and sum(h.get('est_s', 5) for h in out) > QUICK_BUDGET_S:
+    if tier == 'quick' and sum(_cost(h) for h in out) > QUICK_BUDGET_S:
         # the quick tier runs a seed-chosen sample of the cheap harnesses within a CPU budget, plus every harness
         # tied to a recorded finding; the thorough tier runs all of them
         import random
@@ -38,9 +44,9 @@ def select(pid=None, tier='quick', fn_key=None, seed=0):
         # they name) come first; harnesses that merely cross-check Verus-proved functions fill the remaining budget
         pk = _proved_generic_keys()
         rest.sort(key=lambda h: 1 if (h.get('fn_keys') and all(_gk(k) in pk for k in h['fn_keys'])) else 0)
-        spent = sum(h.get('est_s', 5) for h in keep)
+        spent = sum(_cost(h) for h in keep)
         for h in rest:
-            c = max(h.get('est_s', 5), 0.2)
+            c = _cost(h)
             if spent + c > QUICK_BUDGET_S:
                 continue
             keep.append(h)
